@@ -9,6 +9,9 @@
 //! the sequence of `Update`s that leave the unit's gate (collected through a
 //! real `Link`), the enqueuer responses, and the next free ingress id.
 //! Observation is at the Update level (no RIB unit downstream).
+//! The oracle reads every UPDATE as RFC 4271 4.3 says: a prefix that one UPDATE both
+//! withdraws and announces is expected as its announcement only (`explode_update`,
+//! /repo commit 2186599; variant site `overlap`).
 use std::io::Write as _;
 use std::net::IpAddr;
 use std::path::{Path, PathBuf};
@@ -267,7 +270,12 @@ fn show_obs(o: &Obs, infos: &[(u32, IngressInfo)]) -> String {
 // ------------------------------------------------------------------ oracle
 
 #[derive(Clone, Debug, PartialEq)]
-enum Tok { S { v6: bool, pfx: String, peer: Peer, attrs: u8 }, B { peer: Peer, items: Vec<(bool, String)> }, W { peer: Peer, mandatory: bool } }
+enum Tok { S { v6: bool, pfx: String, peer: Peer, attrs: u8 }, B { peer: Peer, items: Vec<(bool, String)>, raw: Vec<(bool, String)> }, W { peer: Peer, mandatory: bool } }
+
+/// How the observed updates are read: `raw_overlap` accepts a Bulk that still carries the withdrawal of a prefix the
+/// same UPDATE announces (the overlap defect), `w_optional` accepts a missing mandatory Withdraw (the state-change defect).
+#[derive(Clone, Copy)]
+struct Lenient { w_optional: bool, raw_overlap: bool }
 
 fn pfx_name(v6: bool, i: usize) -> String { (if v6 { PFX6[i] } else { PFX4[i] }).to_string() }
 
@@ -294,7 +302,11 @@ fn tolerant(f: &FileSpec, known: &mut Vec<Peer>, good: bool) -> Vec<Tok> {
     for r in &f.recs {
         match r {
             Rec::Msg { peer, bgp: Bgp::Update { v6, ann, wd, .. }, .. } => {
-                t.push(Tok::B { peer: peer.clone(), items: ann.iter().map(|i| (true, pfx_name(*v6, *i))).chain(wd.iter().map(|i| (false, pfx_name(*v6, *i)))).collect() });
+                // RFC 4271 4.3: the UPDATE is read as though its withdrawn routes did not contain a prefix it also announces
+                // (one family per generated UPDATE, distinct prefixes per index: same NLRI = same index)
+                let raw: Vec<(bool, String)> = ann.iter().map(|i| (true, pfx_name(*v6, *i))).chain(wd.iter().map(|i| (false, pfx_name(*v6, *i)))).collect();
+                let items = ann.iter().map(|i| (true, pfx_name(*v6, *i))).chain(wd.iter().filter(|i| !ann.contains(i)).map(|i| (false, pfx_name(*v6, *i)))).collect();
+                t.push(Tok::B { peer: peer.clone(), items, raw });
                 if good && !known.contains(peer) { known.push(peer.clone()); }
             }
             Rec::State { peer, old: 6, new: 1, .. } => t.push(Tok::W { peer: peer.clone(), mandatory: good && known.contains(peer) }),
@@ -308,26 +320,26 @@ fn peer_of(infos: &[(u32, IngressInfo)], id: u32) -> Option<(Option<u32>, Peer)>
     let addr = ADDRS.iter().position(|a| Some(IpAddr::from_str(a).unwrap()) == i.remote_addr)?;
     Some((i.parent_ingress, Peer { addr, asn: i.remote_asn?.into_u32() }))
 }
-fn tok_matches(t: &Tok, o: &Obs, infos: &[(u32, IngressInfo)]) -> bool {
+fn tok_matches(t: &Tok, o: &Obs, infos: &[(u32, IngressInfo)], raw_overlap: bool) -> bool {
     match (t, o) {
         (Tok::S { v6, pfx, peer, attrs }, Obs::Single { v6: ov6, pfx: opfx, id, attrs: oa }) => v6 == ov6 && pfx == opfx && Some(*attrs) == *oa && peer_of(infos, *id) == Some((Some(1), peer.clone())),
-        (Tok::B { peer, items }, Obs::Bulk { id, items: oi }) => items == oi && (items.is_empty() || peer_of(infos, *id) == Some((Some(1), peer.clone()))),
+        (Tok::B { peer, items, raw }, Obs::Bulk { id, items: oi }) => (items == oi || (raw_overlap && raw == oi)) && (oi.is_empty() || peer_of(infos, *id) == Some((Some(1), peer.clone()))),
         (Tok::W { peer, .. }, Obs::Withdraw(id)) => peer_of(infos, *id) == Some((Some(1), peer.clone())),
         _ => false,
     }
 }
 /// Can `obs[pos..]` be explained by files `k..`? Good files must appear completely, unreadable ones as any prefix.
-fn explain(files: &[(bool, Vec<Tok>)], k: usize, obs: &[Obs], pos: usize, infos: &[(u32, IngressInfo)], w_optional: bool) -> bool {
+fn explain(files: &[(bool, Vec<Tok>)], k: usize, obs: &[Obs], pos: usize, infos: &[(u32, IngressInfo)], l: Lenient) -> bool {
     if k == files.len() { return pos == obs.len(); }
     let (good, toks) = &files[k];
     // walk the tokens; optional W tokens may be skipped
-    fn walk(toks: &[Tok], ti: usize, good: bool, files: &[(bool, Vec<Tok>)], k: usize, obs: &[Obs], pos: usize, infos: &[(u32, IngressInfo)], w_optional: bool) -> bool {
-        if (!good || ti == toks.len()) && explain(files, k + 1, obs, pos, infos, w_optional) { return true; }
+    fn walk(toks: &[Tok], ti: usize, good: bool, files: &[(bool, Vec<Tok>)], k: usize, obs: &[Obs], pos: usize, infos: &[(u32, IngressInfo)], l: Lenient) -> bool {
+        if (!good || ti == toks.len()) && explain(files, k + 1, obs, pos, infos, l) { return true; }
         if ti == toks.len() { return false; }
-        if let Tok::W { mandatory, .. } = &toks[ti] { if (!*mandatory || w_optional) && walk(toks, ti + 1, good, files, k, obs, pos, infos, w_optional) { return true; } }
-        pos < obs.len() && tok_matches(&toks[ti], &obs[pos], infos) && walk(toks, ti + 1, good, files, k, obs, pos + 1, infos, w_optional)
+        if let Tok::W { mandatory, .. } = &toks[ti] { if (!*mandatory || l.w_optional) && walk(toks, ti + 1, good, files, k, obs, pos, infos, l) { return true; } }
+        pos < obs.len() && tok_matches(&toks[ti], &obs[pos], infos, l.raw_overlap) && walk(toks, ti + 1, good, files, k, obs, pos + 1, infos, l)
     }
-    walk(toks, 0, *good, files, k, obs, pos, infos, w_optional)
+    walk(toks, 0, *good, files, k, obs, pos, infos, l)
 }
 fn oracle(files: &[FileSpec], o: &RunObs) -> String {
     if o.responses.iter().any(|r| !*r) {
@@ -346,8 +358,12 @@ fn oracle(files: &[FileSpec], o: &RunObs) -> String {
             _ => {} } } }
         if o.next_id != n { return format!("fail mrt-in:attribution-unstable {} ingress ids registered, {} expected: messages of a known peer did not reuse its id", o.next_id - 1, n - 1); }
     }
-    if explain(&toks, 0, &o.updates, 0, &o.infos, false) { return "ok".into(); }
-    if explain(&toks, 0, &o.updates, 0, &o.infos, true) { return "fail mrt-in:state-change-never-withdraws an Established->Idle state change of a peer with imported routes produced no Update::Withdraw".into(); }
+    if explain(&toks, 0, &o.updates, 0, &o.infos, Lenient { w_optional: false, raw_overlap: false }) { return "ok".into(); }
+    if explain(&toks, 0, &o.updates, 0, &o.infos, Lenient { w_optional: true, raw_overlap: false }) { return "fail mrt-in:state-change-never-withdraws an Established->Idle state change of a peer with imported routes produced no Update::Withdraw".into(); }
+    // everything else in place, but a Bulk still withdraws a prefix its own UPDATE announces (RFC 4271 4.3)
+    if explain(&toks, 0, &o.updates, 0, &o.infos, Lenient { w_optional: false, raw_overlap: true }) || explain(&toks, 0, &o.updates, 0, &o.infos, Lenient { w_optional: true, raw_overlap: true }) {
+        return "fail overlap:withdrawal-kept-after-announcement-of-same-update a prefix that one UPDATE of the file both withdraws and announces left the gate as an announcement followed by a withdrawal in one Bulk (RFC 4271 4.3: as though not withdrawn)".into();
+    }
     "fail mrt-in:import-mismatch the updates leaving the gate are not the file's entries and updates, in order, attributed to the right peers".into()
 }
 
@@ -455,9 +471,13 @@ fn main() {
     rec.variant("sc", if o.updates.iter().any(|u| matches!(u, Obs::Withdraw(_))) { "repaired" } else { "as-written" });
     let o = case(&rt, &dir, &mut rec, &[FileSpec { comp: 'p', recs: vec![Rec::PeerIndex(vec![p1.clone()]), Rec::RibOther(3)] }, FileSpec { comp: 'p', recs: vec![Rec::PeerIndex(vec![p2.clone()]), Rec::Rib { v6: true, pfx: 1, entries: vec![(0, 2)] }] }]);
     rec.variant("iso", if o.responses == vec![true, true] && o.updates.len() == 1 { "repaired" } else { "as-written" });
+    // one UPDATE that withdraws and announces 203.0.113.7/32 (witness of C16_updates_counterexample)
+    let o = case(&rt, &dir, &mut rec, &[FileSpec { comp: 'p', recs: vec![Rec::Msg { as4: true, peer: p1.clone(), bgp: Bgp::Update { v6: false, ann: vec![4], wd: vec![4], attrs: 1 } }] }]);
+    rec.variant("overlap", if o.updates.iter().any(|u| matches!(u, Obs::Bulk { items, .. } if items.iter().any(|(act, _)| !*act))) { "as-written" } else { "repaired" });
     // corpus: the probes of the design (mixed file, out-of-range index, local subtype, fused iterator)
     for q in ["p:PI 0.65001;R4 0 0.1;M1 0.65001 K#p:PI 3.4200000001;R4 1 0.1", "p:PI 0.65001;R4 0 3.1#p:PI 3.4200000001;R4 1 0.1", "p:M1 0.65001 U4 1 - 2;TR#p:M1 0.65001 G;M1 0.65001 O;L 6#p:M1 0.65001 U4 2 - 2",
-              "p:M1 0.65001 U4 1 - 2;OT 12;M1 0.65001 U4 2 - 2", "m:-#x:PI 0.65001#p:PI 3.4200000001;R4 1 0.1", "g:M1 0.65001 U4 0,1 2 1;M0 0.65001 U4 3 - 2;M1 3.4200000001 U6 0 1 3;SC1 0.65001 6 1;M0 0.65001 U4 - 0 0", "p:PI -#p:-"] {
+              "p:M1 0.65001 U4 1 - 2;OT 12;M1 0.65001 U4 2 - 2", "m:-#x:PI 0.65001#p:PI 3.4200000001;R4 1 0.1", "g:M1 0.65001 U4 0,1 2 1;M0 0.65001 U4 3 - 2;M1 3.4200000001 U6 0 1 3;SC1 0.65001 6 1;M0 0.65001 U4 - 0 0", "p:PI -#p:-",
+              "p:M1 0.65001 U4 4,1 4,2 1;M1 3.4200000001 U6 0,1 1,3 2;M0 0.65001 U4 2,2 2,2,0 3;SC1 0.65001 6 1", "g:PI 0.65001;R4 4 0.1#b:M1 0.65001 U4 4 4 2;M1 0.65001 U4 - 4 0"] {
         let files: Vec<FileSpec> = q.split('#').map(parse_file).collect(); case(&rt, &dir, &mut rec, &files);
     }
 
